@@ -302,3 +302,19 @@ M("C14", "multi CCA overwrites c", "xeofs/multi/cca.py", '        self.c_ = _pro
 B("C14", "reset via list()", LP, "        self.transformers = []\n", "        self.transformers = list()\n")
 B("C14", "copy via shallow copy method chain", ER, 'self.model_data.add(model.data["norms"].copy(deep=False), "singular_values")', 'svals_copy = model.data["norms"].copy(deep=False)\n        self.model_data.add(svals_copy, "singular_values")')
 B("C14", "pca_models appended after reset", "xeofs/multi/cca.py", "        self.pca_models = []\n", "        self.pca_models = list()\n")
+
+# ---------------------------------------------------------------- C12
+M("C12", ".values on singular values in EOF fit", EOFPY, "exp_var = singular_values**2 / (n_samples - 1)", "exp_var = singular_values.values**2 / (n_samples - 1)", "LAZY.sink")
+M("C12", "float(total_variance)", EOFPY, "        total_variance = compute_total_variance(X, dim=sample_name)\n", "        total_variance = compute_total_variance(X, dim=sample_name)\n        tv_scalar = float(total_variance)\n", "LAZY.sink")
+M("C12", "truth value of data in Decomposer.fit", DEC, "        U = U.assign_coords(mode=range(1, U.mode.size + 1))", "        if (s > 0).all():\n            pass\n        U = U.assign_coords(mode=range(1, U.mode.size + 1))", "LAZY.sink")
+M("C12", "allow_compute=False dropped", EOFPY, 'self.data.add(X, "input_data", allow_compute=False)', 'self.data.add(X, "input_data")', "LAZY.input.flag")
+M("C12", "Scaler always computes", SC, '        if self.get_params()["compute"]:\n            (self.mean_, self.std_', '        if True:\n            (self.mean_, self.std_', "LAZY.sink")
+M("C12", "argsort on values", XU, "        np.argsort,\n        data.chunk({dim: -1}),", "        np.argsort,\n        data.values,", "LAZY.sink")
+M("C12", "sanitizer computes masks without check_nans", SA, "        # Optionally skip NaN checks to preserve lazy computation for dask arrays\n        if self.check_nans:", "        # Optionally skip NaN checks to preserve lazy computation for dask arrays\n        if True:", "LAZY.sink")
+M("C12", "rotator sorts during fit", ER, "        # Assign analysis-relevant meta data\n        self.data.set_attrs(self.attrs)\n\n        return self\n\n    def _post_compute(self):", "        # Assign analysis-relevant meta data\n        self.data.set_attrs(self.attrs)\n        self._sort_by_variance()\n\n        return self\n\n    def _post_compute(self):", "LAZY.sink")
+M("C12", "rotator fit always computes", ER, '        if self._params["compute"]:\n            self.compute()', '        if True:\n            self.compute()', "LAZY.sink")
+M("C12", "whitener loads data", "xeofs/preprocessing/whitener.py", "        n_samples, n_features = X.shape\n        self.n_samples = n_samples\n", "        X = X.load()\n        n_samples, n_features = X.shape\n        self.n_samples = n_samples\n", "LAZY.sink")
+M("C12", "stacker compares data values", "xeofs/preprocessing/stacker.py", "        self.data_type = self._type_name(X)\n", "        self.data_type = self._type_name(X)\n        self._is_constant = bool((X == X.mean()).all())\n", "LAZY.sink")
+M("C12", "DataContainer.compute ignores flag", "xeofs/data_container/data_container.py", "computed_data = {k: v for k, v in self.items() if self._allow_compute[k]}", "computed_data = {k: v for k, v in self.items()}", "LAZY.input.filter")
+B("C12", "metadata access on lazy data", EOFPY, "        n_samples = X.coords[self.sample_name].size", "        n_samples = X.sizes[self.sample_name]\n        n_check = X.coords[self.sample_name].values.size")
+B("C12", "guarded compute with renamed flag", SC, '        if self.get_params()["compute"]:', '        do_compute = self.get_params()["compute"]\n        if do_compute:')
